@@ -17,6 +17,15 @@ CHECKS["C12"] = dict(technique="TLA+ spec of the documented rule (specs/Classify
   text="The classification rule is a pure function; the spec is the rule as documented. TLC enumerates every row (all sets of <= 3-4 registrations of 9 x 3 results x all error terms to depth 1-2 built from sentinels, value/pointer-receiver types, %w wrapping, a custom wrapping type and errors.Join) and each row is executed against the real policies in five observation ways. Exhaustive over the stated table.",
   note="Trusted: TLC, the term<->error construction in harness/classify_test.go. AbortOnResult/CancelOnResult against an outcome that also carries an error: both verdicts accepted (statement not explicit).",
   ref="4 C12")
+
+_SEQ_NOTE = "Trusted: TLC, testing/synctest virtual time, the projection in harness/failsafe_test.go (errors -> terms, listener payloads -> snapshots). Sequential configuration only (one execution at a time, at most one hedge per stack, zero or fixed retry delays); timeouts never fire here (C07 covers them). Bounds in evidence.coverage.rule."
+_SEQ_TECH = "TLA+ spec of the execution machine (specs/Failsafe.tla, code-shaped small-step semantics of all eight policy executors) model-checked by TLC with property invariants; every TLC-enumerated behaviour (stack x lazily chosen outcome script x history of executions) replayed on the real library (spec->impl conformance)"
+CHECKS["C01"] = dict(technique=_SEQ_TECH, text="TLC enumerates every stack of depth <= 2 (quick) / 3 (thorough) over 17 policy descriptors incl. repeated stateful instances, every outcome script and 2 successive executions, checks the admission / completion invariants, and emits per execution the invocation count, returned value and error, success verdict and the public state of every stateful policy; the real executor must reproduce each of them (4 entry points in thorough).", note=_SEQ_NOTE, ref="4 C01")
+CHECKS["C02"] = dict(technique=_SEQ_TECH, text="Retry-centred families: 15 retry configurations (maxRetries -1/0/1/2/3, handle/abort sets incl. multi-error registrations, ReturnLastFailure, fixed delay + max duration) alone, nested pairwise and combined with breaker/fallback/bulkhead/limiter; TLC checks C02_Bound / C02_OnlyAfterFailure / C02_Single on every behaviour; invocation counts, returned value (ExceededError with its LastResult/LastError) and retry events are compared on the real library in virtual time; successive executions check that the budget is per execution.", note=_SEQ_NOTE + " Concurrent executions sharing a policy are exercised by C14.", ref="4 C02")
+CHECKS["C10"] = dict(technique=_SEQ_TECH, text="Fallback-centred families: 8 fallback configurations (result / error / handled subsets / ErrExceeded / ErrOpen / output on the other side of its own conditions) over and under 11 inner policies producing plain results, handled and unhandled errors, ExceededError, ErrOpen, ErrFull and rate-limit errors; TLC checks C10_Fallback / C10_Outermost; the fallback invocation count, the execution it receives, OnFallbackExecuted, returned value and verdict are compared on the real library.", note=_SEQ_NOTE + " Cancellation of an execution with a fallback is covered by C08.", ref="4 C10")
+CHECKS["C11"] = dict(technique=_SEQ_TECH, text="Cache-centred families with an instrumented Cache: configured key / CacheIf on a result / CacheIf on an error / no key, alone, over and under stateful policies, histories of 3 executions whose context carries no key, another key, the empty string or a non-string; TLC checks C11_HitSkipsInner / C11_StoreIff / C11_Outermost; Get/Set calls, cache events, cache contents and the state of the policies inside are compared.", note=_SEQ_NOTE, ref="4 C11")
+CHECKS["C16"] = dict(technique=_SEQ_TECH, text="Every listener of every builder is registered (5 registration variants, so listeners that are only reached when another is absent are exercised) and the ordered per-execution log (listener, policy, payload) is compared with the event log the spec builds action by action; TLC checks the C16 identities on the model. Breaker transition paths with specific + generic listeners are also covered by C03.", note=_SEQ_NOTE + " Events under concurrency (timeouts, cancelled waits) are covered by C06/C07/C08/C09.", ref="4 C16")
+CHECKS["C17"] = dict(technique=_SEQ_TECH, text="The snapshot user code can read (Attempts, Executions, Retries, Hedges, IsFirstAttempt/IsRetry/IsHedge, LastResult, LastError) inside the function, in every listener and in the fallback is compared with the spec's snapshot at that event, for all stacks of depth <= 2/3 over 14 descriptors incl. hedges and rejected attempts; TLC checks the counter identities on the model.", note=_SEQ_NOTE + " Overlapping hedge attempts are covered by C09.", ref="4 C17")
 PENDING = {}
 def main():
     checks = []
